@@ -45,6 +45,7 @@ def check(run):
 
     ownership_rule(run, ast)
     thunk_rule(run, ast)
+    conv_source_rule(run)
 
 
 SHARING = r"^std::(static|dynamic|const|reinterpret)_pointer_cast<"
@@ -119,6 +120,52 @@ def ownership_rule(run, ast):
                 fq = re.sub(r"<.*", "", f["name"].replace("yorel::yomm2::", ""))
                 kind = "const-ref" if "const std::shared_ptr" in f["name"].split("::cast<")[0] else "value"
                 run.violation(rule, "%s|%s|owner" % (fq, kind), "%s returns %s: the converted pointer does not share ownership with the caller's shared_ptr" % (f["name"][:160], o), (f["file"], r["l"]))
+
+
+def conv_source_rule(run):
+    """the caller's own virtual_ptr survives the conversion to the definition's (or the method's) parameter type: a converting
+    constructor that takes its source by LVALUE reference (const or not) copies it - the source is never cast to an rvalue
+    (std::move / std::forward / static_cast<T&&>) on its way into the new pointer. Only the rvalue overload may move."""
+    from .. import witness
+    rule = "C11-ownership"
+    pols = ["release"] if run.tier == "quick" else ["release", "debug", "p_ind", "p_map"]
+    body = ""
+    for k, p in enumerate(pols):
+        P = witness.POLICIES[p]
+        body += """
+namespace yc%d { using namespace yw;
+void conv(virtual_ptr<std::shared_ptr<B>, %s>& l, const virtual_ptr<std::shared_ptr<B>, %s>& c, virtual_ptr<B, %s>& pl, const virtual_ptr<B, %s>& pc) {
+  virtual_ptr<std::shared_ptr<A>, %s> a(l); virtual_ptr<std::shared_ptr<A>, %s> b(c); virtual_ptr<std::shared_ptr<A>, %s> m(std::move(l));
+  virtual_ptr<A, %s> d(pl); virtual_ptr<A, %s> e(pc);
+}}
+""" % ((k,) + (P,) * 9)
+    ast = astq.Ast(common.ast_json(run, witness.PRELUDE + body, "c11_conv", funcs="virtual_ptr<"))
+    seen = {"lvalue": 0, "rvalue-moves": 0}
+    for f in ast.funcs:
+        ps = f.get("params") or []
+        if not re.search(r"virtual_ptr<.*>::virtual_ptr<", f["name"]) or len(ps) != 1 or "virtual_ptr<" not in (ps[0].get("type") or ""):
+            continue
+        pt = ps[0]["type"].rstrip()
+        did = ps[0]["did"]
+        roots = [i.get("init") for i in f.get("inits") or [] if i.get("init") is not None] + ([f["body"]] if f.get("body") else [])
+        moved = []
+        for r in roots:
+            for n in astq.walk(r):
+                xv = (n.get("k") == "CallExpr" and re.match(r"^std::(move|forward)<", n.get("callee") or "")) or \
+                     (n.get("k") in ("CXXStaticCastExpr", "CStyleCastExpr", "CXXFunctionalCastExpr") and (n.get("t") or "").rstrip().endswith("&&"))
+                if xv and any(_refers_to_param(x, did) for x in astq.walk(n)):
+                    moved.append(n)
+        if pt.endswith("&&"):
+            seen["rvalue-moves"] += 1 if moved else 0
+            continue
+        seen["lvalue"] += 1
+        short = f["name"].replace("yorel::yomm2::", "")[:120] + "(" + pt.replace("yorel::yomm2::", "")[-40:] + ")"
+        run.instance(rule, "%s: the source, taken by lvalue reference, is copied and left intact" % short, (f["file"], f["line"]), ok=not moved)
+        for n in moved:
+            run.violation(rule, "virtual_ptr::virtual_ptr(virtual_ptr<Other>&)|moves-lvalue", "%s casts its lvalue source to an rvalue (`%s`): the caller's virtual_shared_ptr is emptied when it is converted to the parameter type, the definition no longer shares ownership with the caller" % (
+                short, astq.text(n)[:60]), (f["file"], n.get("l", f["line"])))
+    if seen["lvalue"] < 4 * len(pols) or seen["rvalue-moves"] < 1:
+        run.broken.append("C11-ownership: converting constructors not all found (%s)" % seen)
 
 
 def thunk_rule(run, ast):
